@@ -331,6 +331,12 @@ def property_anchor_files(prop: str) -> List[str]:
         if d['id'] == prop:
             files = [f for f in d['anchors']['files'] if f.endswith(('.py', '.json', '.js'))]
     extra = {'C05': ['panqec/decoders/belief_propagation/mbp_decoder.py', 'panqec/decoders/xcube/_xcube_matching_decoder.py'],
+             'C06': ['panqec/decoders/sweepmatch/_sweep_decoder_3d.py', 'panqec/decoders/sweepmatch/_rotated_sweep_decoder.py',
+                     'panqec/decoders/sweepmatch/_sweep_match_decoder.py',
+                     'panqec/decoders/sweepmatch/_rotated_sweep_match_decoder.py',
+                     'panqec/decoders/belief_propagation/mbp_decoder.py'],
+             'C17': ['panqec/simulation/_base_simulation.py', 'panqec/simulation/_batch_simulation.py',
+                     'panqec/analysis.py'],
              'C20': ['panqec/decoders/base/_base_decoder.py']}
     return sorted(set(files + extra.get(prop, [])))
 
